@@ -25,8 +25,12 @@ func (s *skipListIndex) put(key []byte, pos *datafile.DataPos) *datafile.DataPos
 	var oldValue *datafile.DataPos
 	if oldItem != nil {
 		oldValue = oldItem.Value.(*datafile.DataPos)
+		// 节点已持有 key, 仅更新 value
+		oldItem.Value = pos
+		return oldValue
 	}
-	s.list.Set(key, pos)
+	// 索引需持有 key 的副本, 调用方可能复用传入的切片
+	s.list.Set(append([]byte(nil), key...), pos)
 	return oldValue
 }
 
